@@ -109,3 +109,33 @@ class XmlHarness(object):
                     hv[hn] = spec.from_native(b, ['c', hn, {}], hx)
             out.append((name, ref, hv))
         return out
+
+
+class DictHarness(object):
+    """JSON / YAML / MessagePack / MessagePackRpc harness around the real ServerBase pipeline."""
+
+    def __init__(self, program, wire, validator=None, ignore_wrappers=True, complex_as='dict', polymorphic=False,
+                 text_keys=True, built=None):
+        from vf.ref import dictcodec
+        self.program = program
+        self.wire = wire
+        self.validator = validator
+        self.cfg = dict(wire=wire, validator=validator, ignore_wrappers=ignore_wrappers, complex_as=complex_as,
+                        polymorphic=polymorphic, text_keys=text_keys)
+        self.b = built or spec.build(program)
+        kw = dict(ignore_wrappers=ignore_wrappers, complex_as={'dict': dict, 'list': list}[complex_as])
+        if polymorphic:
+            kw['polymorphic'] = True
+        self.app = spec.make_app(self.b, make_proto(wire, validator, **kw), make_proto(wire, **kw))
+        self.srv = drv.make_server(self.app)
+        self.codec = dictcodec.DictCodec(self.b, wire, ignore_wrappers, complex_as, polymorphic, text_keys)
+
+    natives = XmlHarness.natives
+    call_raw = XmlHarness.call_raw
+    captured = XmlHarness.captured
+
+    @property
+    def label(self):
+        c = self.cfg
+        return '%s,iw=%s,%s%s' % (c['wire'], 'T' if c['ignore_wrappers'] else 'F', c['complex_as'],
+                                  '' if c['text_keys'] else ',binkeys')
